@@ -34,7 +34,7 @@ class C09(core.Check):
         'expands-to:expression', 'source:isa', 'source:cli', 'source:define', 'unparenthesised-expression-value', 'double:identical-text',
         'cycle:replacement-is-the-bare-name-itself', 'quoted-value-used', 'quoted-value-with-blank-run', 'valueless-symbol-used', 'define-while-muted', 'same-line-text-repeated', 'quoted-value-from:isa', 'quoted-value-from:cli', 'quoted-value-from:define',
         'symbol-inside-a-string', 'symbol-inside-a-string:replaced', 'config-symbol-value-written-as-a-number',
-        'adjacent:case', 'symbol-and-its-other-case-twin-on-one-line', 'config-symbol-value-is-the-number-0']}
+        'adjacent:case', 'symbol-and-its-other-case-twin-on-one-line', 'config-symbol-value-is-the-number-0', 'quoted-value-with-a-backslash']}
 
     def build(self, rng, mode, quoted=None, muted=None, nil=None, in_string=None):
         tags = set()
@@ -147,8 +147,13 @@ class C09(core.Check):
             q_sym = spare[0]
             q_kind = rng.choice(['str', 'chr'])
             # (runs of blanks and tabs inside the quotes belong to the replacement text)
-            q_text = rng.choice(['"ok"', '"a b"', '"x"', "'hi there'", '"A  B"', '"t\tab"', '"  lead"', '"trail   "', "'two  gaps  here'"]) \
-                if q_kind == 'str' else rng.choice(["'B'", "'7'", "'z'", "' '", "'\t'"])
+            # (a backslash in the replacement text is a character of the text like any other; what it means is decided where the
+            #  text lands - here inside a string or character literal, where \\\\ stands for one backslash)
+            q_text = rng.choice(['"ok"', '"a b"', '"x"', "'hi there'", '"A  B"', '"t\tab"', '"  lead"', '"trail   "', "'two  gaps  here'",
+                                 '"a\\\\n"', '"c:\\\\tmp"', '"back\\\\"']) \
+                if q_kind == 'str' else rng.choice(["'B'", "'7'", "'z'", "' '", "'\t'", "'\\\\'"])
+            if '\\' in q_text:
+                tags.add('quoted-value-with-a-backslash')
             if '  ' in q_text or '\t' in q_text:
                 tags.add('quoted-value-with-blank-run')
             defs.append((q_sym, q_text, None))
@@ -270,12 +275,12 @@ class C09(core.Check):
                 qt = table[q_sym]
                 if qt.startswith('"') or len(qt) > 3:
                     line = f'.cstr {q_sym}'
-                    b = qt[1:-1].encode() + b'\0'
+                    b = bytes(qt[1:-1], 'utf-8').decode('unicode_escape').encode('latin-1') + b'\0'
                 else:
                     k_ = rng.randrange(0, 3)
                     # (a line that begins with a character literal is C11's listed finding: keep the literal second)
                     line = f'.byte {k_} + {q_sym}'
-                    b = bytes([ord(qt[1]) + k_])
+                    b = bytes([ord(bytes(qt[1:-1], 'utf-8').decode('unicode_escape')) + k_])
                 out.append(line)
                 probes.append({'line': len(out), 'text': line, 'addr': cur_addr, 'bytes': b.hex(), 'kind': 'quoted'})
                 cur_addr += len(b)
